@@ -185,6 +185,11 @@ def main(argv=None):
                 from vf import scenario  # noqa: PLC0415
 
                 scenario.remove_scratch(s_["_scratch"])
+            for f_ in (s_.get("_cleanup") or []) if isinstance(s_, dict) else []:
+                try:
+                    os.unlink(f_)
+                except OSError:
+                    pass
     extra = {}
     if hasattr(mod, "finish"):
         extra = mod.finish(m, tier, seed) or {}
